@@ -465,8 +465,18 @@ static int do_send(struct side *x, struct op *o)
                 continue;          /* re-send the same message */
             return 0;              /* move on: the message counts as not sent */
         }
-        if (err == EMSGSIZE || err == EINVAL)
-            return 0;              /* refused by size: move on */
+        if (err == EMSGSIZE || err == EINVAL) {
+            /* refused by size: move on.  A message of an admissible size (1..65535; any non-zero length on a byte
+               stream) must never be answered that way: a refused oversized or empty send has to leave the connection
+               fully usable (C03) */
+            if (offered >= 1 && (g_bytestream || offered <= MAXMSG)) {
+                char sig[160];
+                snprintf(sig, sizeof sig, "C03/admissible-send-refused-by-size/%s/tp=%s", errname(err), g_tp);
+                V("C03", sig, "%s: xcm_send of %zu bytes failed with %s (after %d send(s) refused for their size on this connection)",
+                  x->name, offered, errname(err), x->n_failed - 1);
+            }
+            return 0;
+        }
         terminal(x, "send", err);
         return -1;
     }
